@@ -77,7 +77,7 @@ CHECKS.update({
         "technique": "property-based differential testing: generated Hexitals (1-5 members as object / config dict / .settings dict, mixed timeframes, Hexital-level timeframe, fill, lifespan, Heikin-Ashi, constructor/append supply) against standalone twins with the effective configuration fed the same stream; settings round trip; every class enumerated once in settings form",
         "level": EXPL,
         "ref": "DESIGN.md section 4 C08",
-        "note": "The effective configuration of a member is read off Hexital._validate_indicators; member timeframes are multiples of the Hexital's; one open known finding (D33) is excluded by an exact mechanism predicate.",
+        "note": "The effective configuration of a member is read off Hexital._validate_indicators; member timeframes are multiples of the Hexital's; the former open finding D33 (now repaired) is recognised by an exact mechanism predicate and reported as its own violation kind.",
     },
     "C09": {
         "technique": "property-based testing of a validity predicate (no exception, finite values only, no gap after the first value per output field) on generators biased to degenerate regimes: flat from the start, flat tails, monotone runs, zero-volume windows, fill-inserted flats, volume inputs that dry up; one shard per class and wrapper",
